@@ -503,6 +503,24 @@ impl Run {
                     self.exec(&json!({"op": sub, "r": r}));
                 }
             }
+            "obj_create" | "obj_update" | "obj_delete" | "obj_remove" => {
+                // the object-level API used directly (objects outside the document tree)
+                let ids = ["raw-a", "raw-b", "raw c", "raw\u{e9}"];
+                let id = ids[op["o"].as_u64().unwrap_or(0) as usize % ids.len()].to_string();
+                let mut p = Prng::new(op["seed"].as_u64().unwrap_or(0));
+                let val = json!({"n": p.below(3), "s": gen::gen_string(&mut p, self.gencfg)});
+                let obj = val.as_object().unwrap().clone();
+                let m = &self.reps[r].as_ref().unwrap().melda;
+                let o2 = obj.clone();
+                let out = match name {
+                    "obj_create" => call(pool, || m.create_object(&id, o2), |v| json!(v.clone().unwrap_or_default())),
+                    "obj_update" => call(pool, || m.update_object(&id, o2), |v| json!(v.clone().unwrap_or_default())),
+                    "obj_delete" => call(pool, || m.delete_object(&id), |v| json!(v.clone().unwrap_or_default())),
+                    _ => call(pool, || m.remove_object(&id), |v| json!(v.clone().unwrap_or_default())),
+                };
+                let opn = match name { "obj_create" => "ObjCreate", "obj_update" => "ObjUpdate", "obj_delete" => "ObjDelete", _ => "ObjRemove" };
+                self.emit(opn, r, json!({"o": tok(&id), "vsha": canon_sha(&Value::from(obj))}), &out, json!({}));
+            }
             "snapshot" => {
                 let m = &self.reps[r].as_ref().unwrap().melda;
                 let out = call(pool, || m.stage_full_snapshot(), |_| Value::Null);
@@ -970,6 +988,35 @@ pub fn random_spec(run: u64, seed: u64, profile: &str) -> Value {
         }
         return json!({"run": run, "replicas": nrep, "pool": *p.pick(&[1usize, 2, 4, 16]), "ops": ops, "label": format!("random:{}:{}", profile, seed),
             "floats": false, "nasty": false, "universe": 5, "list_seed": if p.chance(1, 2) { json!(p.next()) } else { Value::Null }});
+    }
+    if profile == "objapi" {
+        // create_object / update_object / delete_object / remove_object used directly, mixed with documents
+        ops.clear();
+        let nrep = 2;
+        let n = 10 + p.below(25);
+        for _ in 0..n {
+            let r = p.below(nrep);
+            let op = match p.below(100) {
+                0..=19 => json!({"op": "obj_create", "r": r, "o": p.below(4), "seed": p.next() % 5}),
+                20..=44 => json!({"op": "obj_update", "r": r, "o": p.below(4), "seed": p.next() % 5}),
+                45..=54 => json!({"op": "obj_delete", "r": r, "o": p.below(4)}),
+                55..=64 => json!({"op": "obj_remove", "r": r, "o": p.below(4)}),
+                65..=79 => json!({"op": "commit", "r": r, "seed": p.next()}),
+                80..=84 => json!({"op": "unstage", "r": r}),
+                85..=89 => json!({"op": "export_replay", "r": r}),
+                90..=93 => json!({"op": "reopen", "r": r}),
+                94..=96 => json!({"op": "resolve", "r": r, "o": p.below(4), "leaf": p.below(3)}),
+                _ => json!({"op": "sync", "r": r, "s": 1 - r}),
+            };
+            ops.push(op);
+        }
+        for r in 0..nrep {
+            ops.push(json!({"op": "commit", "r": r, "seed": p.next()}));
+        }
+        ops.push(json!({"op": "sync", "r": 0, "s": 1}));
+        ops.push(json!({"op": "reopen", "r": 0}));
+        return json!({"run": run, "replicas": nrep, "pool": *p.pick(&[1usize, 2, 4, 16]), "ops": ops, "label": format!("random:{}:{}", profile, seed),
+            "floats": false, "nasty": true, "universe": 6, "list_seed": Value::Null});
     }
     if profile == "travel" {
         // forks below the root, merges, then time travel to every recorded head set and back
